@@ -14,7 +14,103 @@
 From Coq Require Import List NArith ZArith Bool Lia.
 Import ListNotations.
 From LV Require Import Model.Base Model.Template Model.Eval Model.Derived Model.EvalRun
-  Proofs.BaseProofs Proofs.EvalProofs Proofs.EvalInd Proofs.FrameProofs Proofs.TraceProofs.
+  Proofs.BaseProofs Proofs.EvalProofs Proofs.EvalInd Proofs.EvalUnfold Proofs.FrameProofs Proofs.TraceProofs Proofs.CoveredDefs.
+Close Scope string_scope.
+Open Scope list_scope.
+
+(** a size for expressions: a cache site inside an expression is smaller than the expression *)
+Fixpoint esize (e : expr) : nat :=
+  match e with
+  | EValue _ | EAllOptions => 1
+  | EOption _ dflt dom =>
+      S (match dflt with Some d => esize d | None => 0 end + match dom with Some d => esize d | None => 0 end)
+  | EApply a b => S (esize a + esize b)
+  | EBind src tbl dflt | ESwitch src tbl dflt =>
+      S (esize src +
+         (fix go (l : list (value * expr)) := match l with [] => 0 | (_, x) :: l' => esize x + go l' end) tbl +
+         match dflt with Some d => esize d | None => 0 end)
+  | ECase disp cases dflt =>
+      S (esize disp +
+         (fix go (l : list (expr * expr)) := match l with [] => 0 | (c, r) :: l' => esize c + esize r + go l' end) cases +
+         match dflt with Some d => esize d | None => 0 end)
+  | ECoalesce ms | EIter ms | EPipe ms =>
+      S ((fix go (l : list expr) := match l with [] => 0 | x :: l' => esize x + go l' end) ms)
+  | EMap e its =>
+      S (esize e + (fix go (l : list (key * expr)) := match l with [] => 0 | (_, x) :: l' => esize x + go l' end) its)
+  | EWith _ _ e | ELogged e | ECached _ e => S (esize e)
+  | EComp e effs => S (esize e + (fix go (l : list expr) := match l with [] => 0 | x :: l' => esize x + go l' end) effs)
+  | ECall _ f args kwargs =>
+      S (esize f +
+         (fix go (l : list expr) := match l with [] => 0 | x :: l' => esize x + go l' end) args +
+         (fix go (l : list expr) := match l with [] => 0 | x :: l' => esize x + go l' end) kwargs)
+  | ETemplate _ ps =>
+      S ((fix go (l : list (N * expr)) := match l with [] => 0 | (_, x) :: l' => esize x + go l' end) ps)
+  end.
+
+Lemma sites_smaller_list (l : list expr) cb :
+  Forall (fun x => forall cb, In cb (sites_of x) -> esize (snd cb) < esize x) l ->
+  In cb ((fix go (l : list expr) := match l with [] => [] | x :: l' => sites_of x ++ go l' end) l) ->
+  esize (snd cb) < (fix go (l : list expr) := match l with [] => 0 | x :: l' => esize x + go l' end) l.
+Proof.
+  induction 1 as [|x l Hx Hl IH]; intros Hin; [destruct Hin|].
+  apply in_app_or in Hin as [Hin|Hin]; [specialize (Hx _ Hin)|specialize (IH Hin)]; lia.
+Qed.
+Lemma sites_smaller_snd {K} (l : list (K * expr)) cb :
+  Forall (fun ke => forall cb, In cb (sites_of (snd ke)) -> esize (snd cb) < esize (snd ke)) l ->
+  In cb ((fix go (l : list (K * expr)) := match l with [] => [] | (_, x) :: l' => sites_of x ++ go l' end) l) ->
+  esize (snd cb) < (fix go (l : list (K * expr)) := match l with [] => 0 | (_, x) :: l' => esize x + go l' end) l.
+Proof.
+  induction 1 as [|[k x] l Hx Hl IH]; intros Hin; [destruct Hin|]. cbn [snd] in Hx.
+  apply in_app_or in Hin as [Hin|Hin]; [specialize (Hx _ Hin)|specialize (IH Hin)]; lia.
+Qed.
+Lemma sites_smaller_cases (l : list (expr * expr)) cb :
+  Forall (fun cr => (forall cb, In cb (sites_of (fst cr)) -> esize (snd cb) < esize (fst cr)) /\
+                    (forall cb, In cb (sites_of (snd cr)) -> esize (snd cb) < esize (snd cr))) l ->
+  In cb ((fix go (l : list (expr * expr)) :=
+            match l with [] => [] | (c, r) :: l' => sites_of c ++ sites_of r ++ go l' end) l) ->
+  esize (snd cb) <
+    (fix go (l : list (expr * expr)) := match l with [] => 0 | (c, r) :: l' => esize c + esize r + go l' end) l.
+Proof.
+  induction 1 as [|[c r] l [Hc Hr] Hl IH]; intros Hin; [destruct Hin|]. cbn [fst snd] in Hc, Hr.
+  apply in_app_or in Hin as [Hin|Hin]; [specialize (Hc _ Hin); lia|].
+  apply in_app_or in Hin as [Hin|Hin]; [specialize (Hr _ Hin)|specialize (IH Hin)]; lia.
+Qed.
+Lemma sites_smaller_opt (d : option expr) cb :
+  Popt (fun x => forall cb, In cb (sites_of x) -> esize (snd cb) < esize x) d ->
+  In cb (match d with Some x => sites_of x | None => [] end) ->
+  esize (snd cb) < match d with Some x => esize x | None => 0 end.
+Proof. destruct d as [x|]; cbn; intros H Hin; [now apply H|destruct Hin]. Qed.
+
+Lemma sites_smaller e : forall cb, In cb (sites_of e) -> esize (snd cb) < esize e.
+Proof.
+  induction e using expr_ind'; intros cb Hin; cbn [sites_of esize] in *;
+    repeat match goal with
+           | H : In _ (_ ++ _) |- _ => apply in_app_or in H as [H|H]
+           end;
+    try (destruct Hin; fail);
+    try (match goal with
+         | H : In _ (sites_of ?x), IH : forall cb, In cb (sites_of ?x) -> _ |- _ => specialize (IH _ H); lia
+         end);
+    try (match goal with
+         | H : In _ (match ?d with Some _ => _ | None => _ end), IH : Popt _ ?d |- _ =>
+             pose proof (sites_smaller_opt d _ IH H); lia
+         end);
+    try (match goal with
+         | H : In _ _, IH : Forall _ ?l |- _ => pose proof (sites_smaller_list l _ IH H); lia
+         end);
+    try (match goal with
+         | H : In _ _, IH : Forall _ ?l |- _ => pose proof (sites_smaller_snd l _ IH H); lia
+         end);
+    try (match goal with
+         | H : In _ _, IH : Forall _ ?l |- _ => pose proof (sites_smaller_cases l _ IH H); lia
+         end).
+  (* the site of the Cached node itself *)
+  destruct c as [cid|]; [|destruct Hin]. destruct Hin as [<-|[]]. cbn [snd]. lia.
+Qed.
+
+(** the cache site of a Cached node is not among the sites inside its own expression *)
+Lemma own_site_not_inside cid e : ~ In (cid, e) (sites_of e).
+Proof. intros H. apply sites_smaller in H. cbn [snd] in H. lia. Qed.
 
 Section C12.
   Variable S : Type.
@@ -28,6 +124,7 @@ Section C12.
   Notation eval := (eval S mem_find mem_store cfg ucall rfuel site_ok).
   Notation validate := (validate S mem_find mem_store cfg ucall rfuel site_ok).
   Notation keys := (keys S mem_find mem_store cfg ucall rfuel site_ok).
+  Notation explain := (explain S mem_find mem_store cfg ucall rfuel site_ok).
   Notation M := (M S).
   Notation bind := (bind S).
   Notation ret := (ret S).
@@ -619,12 +716,12 @@ Section C12.
     fin.
   Qed.
 
-  (** ** Only successes are stored.  The only call of [mem_store] in the interpreters is in the
-      CacheSetRequest step of a Cached node, which is reached only through the successful branch
-      of the bind on the body's evaluation.  Stated as a frame theorem that is STRONGER than
-      TraceProofs.store_frame: the relation [R] has to be respected only by stores of the shape
-      "the value [v] that the evaluation of the cached expression [e] under [o] just returned,
-      at the fingerprint of [e] under [o], into the node's cache" — not by arbitrary stores. *)
+  (** ** Only successes are stored, and only at their own cache site.  The only call of
+      [mem_store] in the interpreters is in the CacheSetRequest step of a Cached node, which is
+      reached only through the successful branch of the bind on the evaluation of the node's own
+      expression.  Stated for EVERY run (evaluate / validate / keys / explain, failing or not) of an
+      expression [e_top] as a statement about the path of stores the run goes through
+      ([site_run], below), then entry by entry. *)
   Definition after_store (cid : N) (e : expr) (o : dict) (v : value) : M value :=
     bind (emit (EvCacheSet cid)) (fun _ =>
     bind (if has_lazy v then emit (EvLazyStored cid) else ret tt) (fun _ =>
@@ -639,132 +736,6 @@ Section C12.
       bind (fingerprint e o) (fun f =>
       bind (put_store S (mem_store cid f (exhaust v))) (fun _ => after_store cid e o v)).
   Proof. reflexivity. Qed.
-
-  Section OnlySuccesses.
-    Variable R : S -> S -> Prop.
-    Hypothesis R_refl : forall s, R s s.
-    Hypothesis R_trans : forall a b c, R a b -> R b c -> R a c.
-    Variable allowed : N -> bool.
-    Hypothesis R_store_success : forall cid e o s1 v s2 l1 f s3 lf,
-      allowed cid = true ->
-      eval e o s1 = (Ok v, s2, l1) -> fingerprint e o s2 = (Ok f, s3, lf) ->
-      R s3 (mem_store cid f (exhaust v) s3).
-
-    Notation fr := (fr S R).
-    Notation fr3 := (fr3 S mem_find mem_store cfg ucall rfuel site_ok R).
-    Notation PP := (PP S mem_find mem_store cfg ucall rfuel site_ok R allowed).
-    Notation caches_allowed := (caches_allowed allowed).
-
-    Let Fbind {A B} := @fr_bind S R R_trans A B.
-    Let Fret {A} := @fr_ret S R R_refl A.
-    Let Femit := fr_emit S R R_refl.
-    Let Fget := fr_get_store S R R_refl.
-
-    Lemma fr_after_store cid e o v : fr3 e -> fr (after_store cid e o v).
-    Proof.
-      intros He. unfold after_store. apply Fbind; [apply Femit|]. intros _.
-      apply Fbind; [destruct (has_lazy v); [apply Femit|apply Fret]|]. intros _.
-      apply Fbind; [now apply (fr_fingerprint S mem_find mem_store cfg ucall rfuel site_ok R R_refl R_trans)|].
-      intros f'. apply Fbind; [apply Fget|]. intros s0.
-      destruct (mem_find cid f' s0); (apply Fbind; [apply Femit|intros _; apply Fret]).
-    Qed.
-
-    (** the miss path: evaluate, and only when that SUCCEEDED store *)
-    Lemma fr_miss_path cid e o : allowed cid = true -> fr3 e -> fr (miss_path cid e o).
-    Proof.
-      intros Ha He s r s' l H. unfold TraceProofs.miss_path in H.
-      destruct (eval e o s) as [[[v|c ee] s1] l1] eqn:Ev.
-      - assert (R01 : R s s1) by (exact (proj1 (He o) _ _ _ _ Ev)).
-        rewrite (bind_okE S _ _ _ _ _ _ Ev) in H. rewrite store_back_E in H.
-        destruct (fingerprint e o s1) as [[[f|c ee] s2] l2] eqn:Ef.
-        + assert (R12 : R s1 s2)
-            by (exact (fr_fingerprint S mem_find mem_store cfg ucall rfuel site_ok R R_refl R_trans e o He _ _ _ _ Ef)).
-          rewrite (bind_okE S _ _ _ _ _ _ Ef) in H.
-          rewrite (bind_okE S _ _ _ _ _ _ (eq_refl : put_store S (mem_store cid f (exhaust v)) s2
-                                             = (Ok tt, mem_store cid f (exhaust v) s2, []))) in H.
-          cbv beta in H.
-          destruct (after_store cid e o v (mem_store cid f (exhaust v) s2)) as [[r3 s3] l3] eqn:Ea.
-          unfold TraceProofs.after in H. cbn [fst snd] in H. inversion H; subst r3 s3.
-          pose proof (fr_after_store cid e o v He _ _ _ _ Ea) as R3.
-          pose proof (R_store_success cid e o s v s1 l1 f s2 l2 Ha Ev Ef) as Rst.
-          eauto.
-        + assert (R12 : R s1 s2)
-            by (exact (fr_fingerprint S mem_find mem_store cfg ucall rfuel site_ok R R_refl R_trans e o He _ _ _ _ Ef)).
-          rewrite (bind_errE S _ _ _ _ _ _ _ Ef) in H. unfold TraceProofs.after in H. cbn [fst snd] in H.
-          inversion H; subst. eauto.
-      - rewrite (bind_errE S _ _ _ _ _ _ _ Ev) in H. inversion H; subst.
-        exact (proj1 (He o) _ _ _ _ Ev).
-    Qed.
-
-    Lemma success_ECached c e : PP e -> PP (ECached c e).
-    Proof.
-      intros H1 Hc. cbn [TraceProofs.caches_allowed] in Hc. apply andb_prop in Hc as [Ca Ce].
-      specialize (H1 Ce). destruct c as [cid|].
-      - pose proof (fun o => fr_miss_path cid e o Ca H1) as Hmiss.
-        pose proof (fun o => fr_fingerprint S mem_find mem_store cfg ucall rfuel site_ok R R_refl R_trans e o H1) as Hfp.
-        intros o. split; [|split].
-        + rewrite eval_cached_mem_E. apply fr_wrap. destruct (cache_off o); [exact (proj1 (H1 o))|].
-          unfold TraceProofs.cached_on. apply Fbind; [destruct (site_ok e o); [apply Fret|apply Femit]|].
-          intros _. apply Fbind; [apply Hfp|]. intros f.
-          apply Fbind; [apply Fget|]. intros s.
-          destruct (mem_find cid f s).
-          * apply Fbind; [apply Femit|]. intros _. apply Fbind; [apply Hfp|].
-            intros f2. apply Fbind; [apply Fget|]. intros s2.
-            destruct (mem_find cid f2 s2); (apply Fbind; [apply Femit|]); intros _;
-              [apply Fret|apply Hmiss].
-          * apply Fbind; [apply Femit|]. intros _. apply Hmiss.
-        + rewrite validate_cached_mem_E. destruct (cache_off o); [exact (proj1 (proj2 (H1 o)))|].
-          apply Fbind; [exact (proj2 (proj2 (H1 o)))|]. intros ks.
-          apply Fbind; [apply (fr_fingerprint_of S R R_refl R_trans)|]. intros f.
-          apply Fbind; [apply Fget|]. intros s. destruct (mem_find cid f s).
-          * apply Fbind; [apply Femit|intros _; apply Fret].
-          * apply Fbind; [apply Femit|intros _; exact (proj1 (proj2 (H1 o)))].
-        + rewrite keys_cached_E. exact (proj2 (proj2 (H1 o))).
-      - intros o. split; [|split].
-        + rewrite eval_cached_none_E. apply fr_wrap. exact (proj1 (H1 o)).
-        + rewrite validate_cached_none_E. exact (proj1 (proj2 (H1 o))).
-        + rewrite keys_cached_E. exact (proj2 (proj2 (H1 o))).
-    Qed.
-
-    (** EVERY run of evaluate / validate / keys — failing or not — relates its initial store to
-        its final store by [R] *)
-    Theorem only_successes_are_stored e : caches_allowed e = true -> fr3 e.
-    Proof.
-      induction e using expr_ind'.
-      - intros _ o. split; [|split].
-        + rewrite eval_value_E. apply fr_wrap, Fret.
-        + rewrite validate_value_E. apply Fret.
-        + rewrite keys_value_E. apply Fret.
-      - now apply (frame_EOption S mem_find mem_store cfg ucall rfuel site_ok R R_refl R_trans allowed).
-      - now apply (frame_EApply S mem_find mem_store cfg ucall rfuel site_ok R R_refl R_trans allowed).
-      - now apply (frame_EBind S mem_find mem_store cfg ucall rfuel site_ok R R_refl R_trans allowed).
-      - now apply (frame_ESwitch S mem_find mem_store cfg ucall rfuel site_ok R R_refl R_trans allowed).
-      - now apply (frame_ECase S mem_find mem_store cfg ucall rfuel site_ok R R_refl R_trans allowed).
-      - now apply (frame_ECoalesce S mem_find mem_store cfg ucall rfuel site_ok R R_refl R_trans allowed).
-      - now apply (frame_EIter S mem_find mem_store cfg ucall rfuel site_ok R R_refl R_trans allowed).
-      - now apply (frame_EMap S mem_find mem_store cfg ucall rfuel site_ok R R_refl R_trans allowed).
-      - now apply (frame_EWith S mem_find mem_store cfg ucall rfuel site_ok R R_refl R_trans allowed).
-      - now apply success_ECached.
-      - now apply (frame_ECall S mem_find mem_store cfg ucall rfuel site_ok R R_refl R_trans allowed).
-      - now apply (frame_ETemplate S mem_find mem_store cfg ucall rfuel site_ok R R_refl R_trans allowed).
-      - now apply (frame_EComp S mem_find mem_store cfg ucall rfuel site_ok R R_refl R_trans allowed).
-      - now apply (frame_ELogged S mem_find mem_store cfg ucall rfuel site_ok R R_refl R_trans allowed).
-      - now apply (frame_EPipe S mem_find mem_store cfg ucall rfuel site_ok R R_refl R_trans allowed).
-      - intros _ o. split; [|split].
-        + rewrite eval_alloptions_E. apply fr_wrap, (fr_all_options_eval S rfuel R R_refl R_trans).
-        + rewrite validate_alloptions_E.
-          apply Fbind; [apply fr_wrap, (fr_all_options_eval S rfuel R R_refl R_trans)|intros; apply Fret].
-        + rewrite keys_alloptions_E. apply Fbind; [apply Femit|intros; apply Fret].
-    Qed.
-  End OnlySuccesses.
-
-  (** the smallest relation of that kind: the stores reachable by storing successes *)
-  Inductive stored_successes : S -> S -> Prop :=
-  | ss_refl s : stored_successes s s
-  | ss_trans a b c : stored_successes a b -> stored_successes b c -> stored_successes a c
-  | ss_store cid e o s1 v s2 l1 f s3 lf :
-      eval e o s1 = (Ok v, s2, l1) -> fingerprint e o s2 = (Ok f, s3, lf) ->
-      stored_successes s3 (mem_store cid f (exhaust v) s3).
 
   Lemma all_caches_allowed e : caches_allowed (fun _ => true) e = true.
   Proof.
@@ -786,49 +757,481 @@ Section C12.
     - destruct c; reflexivity.
   Qed.
 
-  (** NO FAILURE IS EVER STORED: every run of evaluate (validate, keys), failing or not, changes
-      the store only by storing values that evaluations of cached expressions just returned *)
-  Theorem every_store_is_of_a_success e o :
-    (forall s r s' l, eval e o s = (r, s', l) -> stored_successes s s') /\
-    (forall s r s' l, validate e o s = (r, s', l) -> stored_successes s s') /\
-    (forall s r s' l, keys e o s = (r, s', l) -> stored_successes s s').
+  (** the cache sites of a sub-expression are cache sites of the expression *)
+  Lemma incl_app_l {A} (a b c : list A) : incl (a ++ b) c -> incl a c.
+  Proof. intros H x Hx. apply H, in_or_app. now left. Qed.
+  Lemma incl_app_r {A} (a b c : list A) : incl (a ++ b) c -> incl b c.
+  Proof. intros H x Hx. apply H, in_or_app. now right. Qed.
+  Lemma sites_list_In (l : list expr) x :
+    In x l ->
+    incl (sites_of x) ((fix go (l : list expr) := match l with [] => [] | x :: l' => sites_of x ++ go l' end) l).
   Proof.
-    pose proof (only_successes_are_stored stored_successes ss_refl ss_trans (fun _ => true)
-                  (fun cid e o s1 v s2 l1 f s3 lf _ Hv Hf => ss_store cid e o s1 v s2 l1 f s3 lf Hv Hf)
-                  e (all_caches_allowed e) o) as [A [B C]].
-    split; [exact A|split; [exact B|exact C]].
+    induction l as [|a l IH]; intros Hx; [destruct Hx|].
+    destruct Hx as [<-|Hx]; [now apply incl_appl, incl_refl|now apply incl_appr, IH].
+  Qed.
+  Lemma sites_snd_In {K} (l : list (K * expr)) ke :
+    In ke l ->
+    incl (sites_of (snd ke))
+         ((fix go (l : list (K * expr)) := match l with [] => [] | (_, x) :: l' => sites_of x ++ go l' end) l).
+  Proof.
+    induction l as [|[k a] l IH]; intros Hx; [destruct Hx|].
+    destruct Hx as [<-|Hx]; [now apply incl_appl, incl_refl|now apply incl_appr, IH].
+  Qed.
+  Lemma sites_cases_In (l : list (expr * expr)) cr :
+    In cr l ->
+    let all := (fix go (l : list (expr * expr)) :=
+                  match l with [] => [] | (c, r) :: l' => sites_of c ++ sites_of r ++ go l' end) l in
+    incl (sites_of (fst cr)) all /\ incl (sites_of (snd cr)) all.
+  Proof.
+    induction l as [|[c r] l IH]; intros Hx; [destruct Hx|]. cbv zeta.
+    destruct Hx as [<-|Hx].
+    - split; [now apply incl_appl, incl_refl|now apply incl_appr, incl_appl, incl_refl].
+    - destruct (IH Hx) as [A B]. split; now apply incl_appr, incl_appr.
   Qed.
 
-  (** what such a store sequence can contain, given that a lookup after a store finds either
-      the stored value or what was there before (true of the real store, below) *)
-  Section Entries.
-    Hypothesis find_after_store : forall c f v s c' f' w,
-      mem_find c' f' (mem_store c f v s) = Some w -> w = v \/ mem_find c' f' s = Some w.
+  Section SiteStores.
+    (** the cache sites (cache id, cached expression) of the expression being run *)
+    Variable sl : list (N * expr).
 
-    Definition produced (w : value) : Prop :=
-      exists e o s1 v s2 l1, eval e o s1 = (Ok v, s2, l1) /\ w = exhaust v.
+    (** THE PATH OF STORES OF A RUN.  [site_run a b]: the store [b] is reached from [a] by a
+        sequence of segments, each of which is: the evaluation of the cached expression [e] of
+        one of the sites [(cid, e)], under some dictionary [o], which RETURNED [v]; then Cached's
+        computation of the fingerprint of [e] under that same [o]; then the one store
+        [mem_store cid f (exhaust v)] — of that value, at that fingerprint, into that site's
+        cache.  The segment starts at the store in which the sub-evaluation started ([s1]), so
+        the successful sub-evaluation is PART OF the path; what happens inside it (and inside the
+        fingerprint computation) is again a path of this kind.  There is no other way to change
+        the store: in particular no constructor stores after a failed sub-evaluation. *)
+    Inductive site_run : S -> S -> Prop :=
+    | sr_refl s : site_run s s
+    | sr_trans a b c : site_run a b -> site_run b c -> site_run a c
+    | sr_store cid e o s1 v s2 l1 f s3 lf :
+        In (cid, e) sl ->
+        eval e o s1 = (Ok v, s2, l1) -> site_run s1 s2 ->
+        fingerprint e o s2 = (Ok f, s3, lf) -> site_run s2 s3 ->
+        site_run s1 (mem_store cid f (exhaust v) s3).
 
-    Lemma stored_successes_entries s s' :
-      stored_successes s s' ->
-      forall c f w, mem_find c f s' = Some w -> mem_find c f s = Some w \/ produced w.
+    Notation fr := (fr S site_run).
+    Notation fr3 := (fr3 S mem_find mem_store cfg ucall rfuel site_ok site_run).
+    Notation PP := (PP S mem_find mem_store cfg ucall rfuel site_ok site_run (fun _ => true)).
+
+    Let Fbind {A B} := @fr_bind S site_run sr_trans A B.
+    Let Fret {A} := @fr_ret S site_run sr_refl A.
+    Let Femit := fr_emit S site_run sr_refl.
+    Let Fget := fr_get_store S site_run sr_refl.
+    Let Ffp := fr_fingerprint S mem_find mem_store cfg ucall rfuel site_ok site_run sr_refl sr_trans.
+
+    Lemma fr_after_store cid e o v : fr3 e -> fr (after_store cid e o v).
     Proof.
-      induction 1 as [s|a b c0 Hab IHab Hbc IHbc|cid e o s1 v s2 l1 f s3 lf Hv Hf]; intros c f' w Hw.
-      - now left.
-      - destruct (IHbc _ _ _ Hw) as [Hb|Hp]; [|now right]. now apply IHab.
-      - destruct (find_after_store _ _ _ _ _ _ _ Hw) as [->|Hold]; [|now left].
-        right. exists e, o, s1, v, s2, l1. now split.
+      intros He. unfold after_store. apply Fbind; [apply Femit|]. intros _.
+      apply Fbind; [destruct (has_lazy v); [apply Femit|apply Fret]|]. intros _.
+      apply Fbind; [now apply Ffp|].
+      intros f'. apply Fbind; [apply Fget|]. intros s0.
+      destruct (mem_find cid f' s0); (apply Fbind; [apply Femit|intros _; apply Fret]).
     Qed.
 
-    (** A FAILED EVALUATION IS FORGOTTEN: after it, every entry of every cache is an entry that
-        was there before, or the value that a successful evaluation of a cached expression
-        returned during the run *)
-    Theorem failure_is_forgotten e o s c ee s' l :
-      eval e o s = (Err c ee, s', l) ->
-      forall cid f w, mem_find cid f s' = Some w -> mem_find cid f s = Some w \/ produced w.
+    (** the miss path: evaluate, and only when that SUCCEEDED store — the site's own value *)
+    Lemma fr_miss_path cid e o : In (cid, e) sl -> fr3 e -> fr (miss_path cid e o).
     Proof.
-      intros H. apply stored_successes_entries. exact (proj1 (every_store_is_of_a_success e o) _ _ _ _ H).
+      intros Hin He s r s' l H. unfold TraceProofs.miss_path in H.
+      destruct (eval e o s) as [[[v|c ee] s1] l1] eqn:Ev.
+      - assert (R01 : site_run s s1) by (exact (proj1 (He o) _ _ _ _ Ev)).
+        rewrite (bind_okE S _ _ _ _ _ _ Ev) in H. rewrite store_back_E in H.
+        destruct (fingerprint e o s1) as [[[f|c ee] s2] l2] eqn:Ef.
+        + assert (R12 : site_run s1 s2) by (exact (Ffp e o He _ _ _ _ Ef)).
+          rewrite (bind_okE S _ _ _ _ _ _ Ef) in H.
+          rewrite (bind_okE S _ _ _ _ _ _ (eq_refl : put_store S (mem_store cid f (exhaust v)) s2
+                                             = (Ok tt, mem_store cid f (exhaust v) s2, []))) in H.
+          cbv beta in H.
+          destruct (after_store cid e o v (mem_store cid f (exhaust v) s2)) as [[r3 s3] l3] eqn:Ea.
+          unfold TraceProofs.after in H. cbn [fst snd] in H. inversion H; subst.
+          pose proof (fr_after_store cid e o v He _ _ _ _ Ea) as R3.
+          exact (sr_trans _ _ _ (sr_store cid e o s v s1 l1 f s2 l2 Hin Ev R01 Ef R12) R3).
+        + assert (R12 : site_run s1 s2) by (exact (Ffp e o He _ _ _ _ Ef)).
+          rewrite (bind_errE S _ _ _ _ _ _ _ Ef) in H. unfold TraceProofs.after in H. cbn [fst snd] in H.
+          inversion H; subst. exact (sr_trans _ _ _ R01 R12).
+      - rewrite (bind_errE S _ _ _ _ _ _ _ Ev) in H. inversion H; subst.
+        exact (proj1 (He o) _ _ _ _ Ev).
     Qed.
-  End Entries.
+
+    Lemma site_ECached c e :
+      (forall cid, c = CMem cid -> In (cid, e) sl) -> fr3 e -> fr3 (ECached c e).
+    Proof.
+      intros Hin H1. destruct c as [cid|].
+      - pose proof (fun o => fr_miss_path cid e o (Hin cid eq_refl) H1) as Hmiss.
+        pose proof (fun o => Ffp e o H1) as Hfp.
+        intros o. split; [|split].
+        + rewrite eval_cached_mem_E. apply fr_wrap. destruct (cache_off o); [exact (proj1 (H1 o))|].
+          unfold TraceProofs.cached_on. apply Fbind; [destruct (site_ok e o); [apply Fret|apply Femit]|].
+          intros _. apply Fbind; [apply Hfp|]. intros f.
+          apply Fbind; [apply Fget|]. intros s.
+          destruct (mem_find cid f s).
+          * apply Fbind; [apply Femit|]. intros _. apply Fbind; [apply Hfp|].
+            intros f2. apply Fbind; [apply Fget|]. intros s2.
+            destruct (mem_find cid f2 s2); (apply Fbind; [apply Femit|]); intros _;
+              [apply Fret|apply Hmiss].
+          * apply Fbind; [apply Femit|]. intros _. apply Hmiss.
+        + rewrite validate_cached_mem_E. destruct (cache_off o); [exact (proj1 (proj2 (H1 o)))|].
+          apply Fbind; [exact (proj2 (proj2 (H1 o)))|]. intros ks.
+          apply Fbind; [apply (fr_fingerprint_of S site_run sr_refl sr_trans)|]. intros f.
+          apply Fbind; [apply Fget|]. intros s. destruct (mem_find cid f s).
+          * apply Fbind; [apply Femit|intros _; apply Fret].
+          * apply Fbind; [apply Femit|intros _; exact (proj1 (proj2 (H1 o)))].
+        + rewrite keys_cached_E. exact (proj2 (proj2 (H1 o))).
+      - intros o. split; [|split].
+        + rewrite eval_cached_none_E. apply fr_wrap. exact (proj1 (H1 o)).
+        + rewrite validate_cached_none_E. exact (proj1 (proj2 (H1 o))).
+        + rewrite keys_cached_E. exact (proj2 (proj2 (H1 o))).
+    Qed.
+
+    (** from the induction hypotheses (for sub-expressions whose sites are among [sl]) to the
+        premises of the shared per-constructor frame lemmas of TraceProofs *)
+    Definition Q (e : expr) : Prop := incl (sites_of e) sl -> fr3 e.
+    Lemma Q_PP e : Q e -> incl (sites_of e) sl -> PP e.
+    Proof. intros H Hi _. now apply H. Qed.
+    Lemma Qopt_PP d :
+      Popt Q d -> incl (match d with Some x => sites_of x | None => [] end) sl -> Popt PP d.
+    Proof. destruct d as [x|]; [apply Q_PP|intros; exact I]. Qed.
+    Lemma Qlist_PP l :
+      Forall Q l ->
+      incl ((fix go (l : list expr) := match l with [] => [] | x :: l' => sites_of x ++ go l' end) l) sl ->
+      Forall PP l.
+    Proof.
+      intros H Hi. rewrite Forall_forall in *. intros x Hx. apply Q_PP; [now apply H|].
+      exact (incl_tran (sites_list_In l x Hx) Hi).
+    Qed.
+    Lemma Qsnd_PP {K} (l : list (K * expr)) :
+      Forall (fun ve => Q (snd ve)) l ->
+      incl ((fix go (l : list (K * expr)) := match l with [] => [] | (_, x) :: l' => sites_of x ++ go l' end) l) sl ->
+      Forall (fun ve => PP (snd ve)) l.
+    Proof.
+      intros H Hi. rewrite Forall_forall in *. intros x Hx. apply Q_PP; [now apply H|].
+      exact (incl_tran (sites_snd_In l x Hx) Hi).
+    Qed.
+    Lemma Qcases_PP (l : list (expr * expr)) :
+      Forall (fun cr => Q (fst cr) /\ Q (snd cr)) l ->
+      incl ((fix go (l : list (expr * expr)) :=
+               match l with [] => [] | (c, r) :: l' => sites_of c ++ sites_of r ++ go l' end) l) sl ->
+      Forall (fun cr => PP (fst cr) /\ PP (snd cr)) l.
+    Proof.
+      intros H Hi. rewrite Forall_forall in *. intros x Hx. destruct (H x Hx) as [A B].
+      destruct (sites_cases_In l x Hx) as [IA IB].
+      split; (apply Q_PP; [assumption|]); eapply incl_tran; eauto.
+    Qed.
+
+    (** EVERY run of evaluate / validate / keys — failing or not — of an expression whose cache
+        sites are among [sl] goes from its initial to its final store along a [site_run] *)
+    Theorem runs_are_site_runs e : incl (sites_of e) sl -> fr3 e.
+    Proof.
+      induction e using expr_ind'; intros Hi; cbn [sites_of] in Hi.
+      - intros o. split; [|split].
+        + rewrite eval_value_E. apply fr_wrap, Fret.
+        + rewrite validate_value_E. apply Fret.
+        + rewrite keys_value_E. apply Fret.
+      - apply (frame_EOption S mem_find mem_store cfg ucall rfuel site_ok site_run sr_refl sr_trans (fun _ => true));
+          [apply Qopt_PP; [assumption|exact (incl_app_l _ _ _ Hi)]
+          |apply Qopt_PP; [assumption|exact (incl_app_r _ _ _ Hi)]
+          |apply all_caches_allowed].
+      - apply (frame_EApply S mem_find mem_store cfg ucall rfuel site_ok site_run sr_refl sr_trans (fun _ => true));
+          [apply Q_PP; [assumption|exact (incl_app_l _ _ _ Hi)]
+          |apply Q_PP; [assumption|exact (incl_app_r _ _ _ Hi)]
+          |apply all_caches_allowed].
+      - apply (frame_EBind S mem_find mem_store cfg ucall rfuel site_ok site_run sr_refl sr_trans (fun _ => true));
+          [apply Q_PP; [assumption|exact (incl_app_l _ _ _ Hi)]
+          |apply Qsnd_PP; [assumption|exact (incl_app_l _ _ _ (incl_app_r _ _ _ Hi))]
+          |apply Qopt_PP; [assumption|exact (incl_app_r _ _ _ (incl_app_r _ _ _ Hi))]
+          |apply all_caches_allowed].
+      - apply (frame_ESwitch S mem_find mem_store cfg ucall rfuel site_ok site_run sr_refl sr_trans (fun _ => true));
+          [apply Q_PP; [assumption|exact (incl_app_l _ _ _ Hi)]
+          |apply Qsnd_PP; [assumption|exact (incl_app_l _ _ _ (incl_app_r _ _ _ Hi))]
+          |apply Qopt_PP; [assumption|exact (incl_app_r _ _ _ (incl_app_r _ _ _ Hi))]
+          |apply all_caches_allowed].
+      - apply (frame_ECase S mem_find mem_store cfg ucall rfuel site_ok site_run sr_refl sr_trans (fun _ => true));
+          [apply Q_PP; [assumption|exact (incl_app_l _ _ _ Hi)]
+          |apply Qcases_PP; [assumption|exact (incl_app_l _ _ _ (incl_app_r _ _ _ Hi))]
+          |apply Qopt_PP; [assumption|exact (incl_app_r _ _ _ (incl_app_r _ _ _ Hi))]
+          |apply all_caches_allowed].
+      - apply (frame_ECoalesce S mem_find mem_store cfg ucall rfuel site_ok site_run sr_refl sr_trans (fun _ => true));
+          [apply Qlist_PP; assumption|apply all_caches_allowed].
+      - apply (frame_EIter S mem_find mem_store cfg ucall rfuel site_ok site_run sr_refl sr_trans (fun _ => true));
+          [apply Qlist_PP; assumption|apply all_caches_allowed].
+      - apply (frame_EMap S mem_find mem_store cfg ucall rfuel site_ok site_run sr_refl sr_trans (fun _ => true));
+          [apply Q_PP; [assumption|exact (incl_app_l _ _ _ Hi)]
+          |apply Qsnd_PP; [assumption|exact (incl_app_r _ _ _ Hi)]
+          |apply all_caches_allowed].
+      - apply (frame_EWith S mem_find mem_store cfg ucall rfuel site_ok site_run sr_refl sr_trans (fun _ => true));
+          [apply Q_PP; assumption|apply all_caches_allowed].
+      - apply site_ECached.
+        + intros cid ->. apply Hi. now left.
+        + apply IHe. exact (incl_app_r _ _ _ Hi).
+      - apply (frame_ECall S mem_find mem_store cfg ucall rfuel site_ok site_run sr_refl sr_trans (fun _ => true));
+          [apply Q_PP; [assumption|exact (incl_app_l _ _ _ Hi)]
+          |apply Qlist_PP; [assumption|exact (incl_app_l _ _ _ (incl_app_r _ _ _ Hi))]
+          |apply Qlist_PP; [assumption|exact (incl_app_r _ _ _ (incl_app_r _ _ _ Hi))]
+          |apply all_caches_allowed].
+      - apply (frame_ETemplate S mem_find mem_store cfg ucall rfuel site_ok site_run sr_refl sr_trans (fun _ => true));
+          [apply Qsnd_PP; assumption|apply all_caches_allowed].
+      - apply (frame_EComp S mem_find mem_store cfg ucall rfuel site_ok site_run sr_refl sr_trans (fun _ => true));
+          [apply Q_PP; [assumption|exact (incl_app_l _ _ _ Hi)]
+          |apply Qlist_PP; [assumption|exact (incl_app_r _ _ _ Hi)]
+          |apply all_caches_allowed].
+      - apply (frame_ELogged S mem_find mem_store cfg ucall rfuel site_ok site_run sr_refl sr_trans (fun _ => true));
+          [apply Q_PP; assumption|apply all_caches_allowed].
+      - apply (frame_EPipe S mem_find mem_store cfg ucall rfuel site_ok site_run sr_refl sr_trans (fun _ => true));
+          [apply Qlist_PP; assumption|apply all_caches_allowed].
+      - intros o. split; [|split].
+        + rewrite eval_alloptions_E. apply fr_wrap, (fr_all_options_eval S rfuel site_run sr_refl sr_trans).
+        + rewrite validate_alloptions_E.
+          apply Fbind; [apply fr_wrap, (fr_all_options_eval S rfuel site_run sr_refl sr_trans)|intros; apply Fret].
+        + rewrite keys_alloptions_E. apply Fbind; [apply Femit|intros; apply Fret].
+    Qed.
+
+    (** ** the fourth interpreter: explain() evaluates and validates sub-expressions too (Bind /
+        Switch / CaseWhen dispatch, Coalesce, Map), so its runs can store; they are [site_run]s *)
+    Lemma list_incl l :
+      incl ((fix go (l : list expr) := match l with [] => [] | x :: l' => sites_of x ++ go l' end) l) sl ->
+      forall x, In x l -> incl (sites_of x) sl.
+    Proof. intros Hi x Hx. exact (incl_tran (sites_list_In l x Hx) Hi). Qed.
+    Lemma snd_incl {K} (l : list (K * expr)) :
+      incl ((fix go (l : list (K * expr)) := match l with [] => [] | (_, x) :: l' => sites_of x ++ go l' end) l) sl ->
+      forall ke, In ke l -> incl (sites_of (snd ke)) sl.
+    Proof. intros Hi x Hx. exact (incl_tran (sites_snd_In l x Hx) Hi). Qed.
+    Lemma cases_incl (l : list (expr * expr)) :
+      incl ((fix go (l : list (expr * expr)) :=
+               match l with [] => [] | (c, r) :: l' => sites_of c ++ sites_of r ++ go l' end) l) sl ->
+      forall cr, In cr l -> incl (sites_of (fst cr)) sl /\ incl (sites_of (snd cr)) sl.
+    Proof.
+      intros Hi x Hx. destruct (sites_cases_In l x Hx) as [A B]. split; eapply incl_tran; eauto.
+    Qed.
+
+    Definition QX (e : expr) : Prop := incl (sites_of e) sl -> forall o, fr (explain e o).
+
+    Ltac xs :=
+      match goal with
+      | |- fr (Eval.bind _ _ _) => apply Fbind; [|intros ?]
+      | |- fr (Eval.ret _ _) => apply Fret
+      | |- fr (Eval.fail _ _ _) => apply (fr_fail S site_run sr_refl)
+      | |- fr (Eval.emit _ _) => apply Femit
+      | |- fr (Eval.catch _ _ _) => apply (fr_catch S site_run sr_trans); [|intros ? ?]
+      | H : fr ?m |- fr ?m => exact H
+      | |- fr (if ?b then _ else _) => destruct b
+      | |- fr (match ?x with _ => _ end) => destruct x
+      end.
+
+    Theorem explain_runs_are_site_runs e : QX e.
+    Proof.
+      pose proof runs_are_site_runs as F3.
+      induction e using expr_ind'; intros Hi o; cbn [sites_of] in Hi.
+      - rewrite explain_EValue. apply Fret.
+      - (* EOption *)
+        rewrite explain_EOption. apply Fbind; [apply (fr_rd S site_run sr_refl sr_trans)|]. intros r.
+        destruct r as [j| |]; [destruct j| |]; repeat xs;
+          try (apply (fr_unionM S site_run sr_refl sr_trans); intros; apply (fr_ref_keys S site_run sr_refl sr_trans)).
+        apply H. exact (incl_app_l _ _ _ Hi).
+      - (* EApply *)
+        rewrite explain_EApply. repeat xs.
+        + apply IHe1. exact (incl_app_l _ _ _ Hi).
+        + apply IHe2. exact (incl_app_r _ _ _ Hi).
+      - (* EBind *)
+        pose proof (incl_app_l _ _ _ Hi) as I1.
+        pose proof (snd_incl _ (incl_app_l _ _ _ (incl_app_r _ _ _ Hi))) as I2.
+        pose proof (incl_app_r _ _ _ (incl_app_r _ _ _ Hi)) as I3.
+        rewrite explain_EBind. repeat xs.
+        + now apply IHe.
+        + exact (proj1 (F3 _ I1 o)).
+        + apply (fr_pick S site_run).
+          * intros ve Hve. rewrite Forall_forall in H. apply (H ve Hve). now apply I2.
+          * destruct dflt as [d|]; [now apply H0|apply (fr_fail S site_run sr_refl)].
+      - (* ESwitch *)
+        pose proof (incl_app_l _ _ _ Hi) as I1.
+        pose proof (snd_incl _ (incl_app_l _ _ _ (incl_app_r _ _ _ Hi))) as I2.
+        pose proof (incl_app_r _ _ _ (incl_app_r _ _ _ Hi)) as I3.
+        rewrite explain_ESwitch. apply Fbind.
+        + apply (fr_catch S site_run sr_trans); [|intros c ee; destruct ee; apply (fr_fail S site_run sr_refl)].
+          apply (fr_dispatch_value S site_run sr_refl sr_trans). exact (proj1 (F3 _ I1 o)).
+        + intros dv. destruct dv as [k|].
+          * destruct (negb (hashable k)); [apply (fr_fail S site_run sr_refl)|].
+            apply Fbind; [|intros a; apply Fbind; [now apply IHe|intros; apply Fret]].
+            apply (fr_pick S site_run).
+            -- intros ve Hve. rewrite Forall_forall in H. apply (H ve Hve). now apply I2.
+            -- destruct dflt as [d|]; [now apply H0|apply (fr_fail S site_run sr_refl)].
+          * destruct dflt as [d|]; [now apply H0|apply (fr_fail S site_run sr_refl)].
+      - (* ECase *)
+        pose proof (incl_app_l _ _ _ Hi) as I1.
+        pose proof (cases_incl _ (incl_app_l _ _ _ (incl_app_r _ _ _ Hi))) as I2.
+        pose proof (incl_app_r _ _ _ (incl_app_r _ _ _ Hi)) as I3.
+        rewrite explain_ECase.
+        apply (fr_catch S site_run sr_trans); [|intros c ee; destruct ee; apply (fr_fail S site_run sr_refl)].
+        apply Fbind; [now apply IHe|]. intros a. apply Fbind; [exact (proj1 (F3 _ I1 o))|]. intros x.
+        apply Fbind; [|intros; apply Fret].
+        apply (fr_case_loop S mem_find mem_store cfg ucall rfuel site_ok site_run sr_refl sr_trans o x
+                 (match dflt with Some d => explain d o | None => Eval.fail S CCase true end)
+                 (fun r => explain r o) cases).
+        + destruct dflt as [d|]; [now apply H0|apply (fr_fail S site_run sr_refl)].
+        + intros cr Hcr. rewrite Forall_forall in H. destruct (H cr Hcr) as [_ B]. destruct (I2 cr Hcr) as [Ic Ir].
+          split; [exact (proj1 (F3 _ Ic o))|now apply B].
+      - (* ECoalesce *)
+        pose proof (list_incl _ Hi) as I1. rewrite Forall_forall in H.
+        rewrite explain_ECoalesce. apply (fr_catch S site_run sr_trans).
+        + apply (fr_coal_loop S mem_find mem_store cfg ucall rfuel site_ok site_run sr_refl sr_trans o
+                   (fun m => explain m o) ms).
+          intros m Hm. split; [exact (proj1 (proj2 (F3 _ (I1 m Hm) o)))|now apply (H m Hm), I1].
+        + intros c ee. destruct ee; [|apply (fr_fail S site_run sr_refl)].
+          clear Hi. induction ms as [|m ms IH]; [apply (fr_fail S site_run sr_refl)|].
+          destruct ms as [|m2 ms]; [apply (H m); [now left|apply I1; now left]|].
+          apply IH; intros x Hx; [apply H|apply I1]; now right.
+      - (* EIter *)
+        pose proof (list_incl _ Hi) as I1. rewrite Forall_forall in H.
+        rewrite explain_EIter. apply (fr_unionM S site_run sr_refl sr_trans). intros x Hx. now apply (H x Hx), I1.
+      - (* EMap *)
+        pose proof (incl_app_l _ _ _ Hi) as I1. pose proof (snd_incl _ (incl_app_r _ _ _ Hi)) as I2.
+        rewrite Forall_forall in H.
+        assert (HB : fr (unionM S (fun kv : key * expr => explain (snd kv) o) its)).
+        { apply (fr_unionM S site_run sr_refl sr_trans). intros kv Hkv. now apply (H kv Hkv), I2. }
+        rewrite explain_EMap. apply (fr_catch S site_run sr_trans).
+        + apply Fbind.
+          * apply (fr_map_rows S site_run sr_refl sr_trans). intros kv Hkv. exact (proj1 (F3 _ (I2 kv Hkv) o)).
+          * intros rows. apply Fbind; [|intros a; apply Fbind; [exact HB|intros; apply Fret]].
+            apply (fr_unionM S site_run sr_refl sr_trans). intros row _.
+            apply Fbind; [apply (fr_row_options S site_run sr_refl)|]. intros os. cbv zeta.
+            apply Fbind; [now apply IHe|]. intros ks. apply (fr_filter_preset S site_run sr_refl sr_trans).
+        + intros c ee. destruct ee; [|apply (fr_fail S site_run sr_refl)].
+          apply Fbind; [now apply IHe|]. intros a. apply Fbind; [exact HB|intros; apply Fret].
+      - (* EWith *)
+        rewrite explain_EWith. cbv zeta. apply Fbind; [now apply IHe|]. intros ks.
+        apply (fr_filter_preset S site_run sr_refl sr_trans).
+      - (* ECached *)
+        rewrite explain_ECached. apply IHe. exact (incl_app_r _ _ _ Hi).
+      - (* ECall *)
+        pose proof (incl_app_l _ _ _ Hi) as I1.
+        pose proof (list_incl _ (incl_app_l _ _ _ (incl_app_r _ _ _ Hi))) as I2.
+        pose proof (list_incl _ (incl_app_r _ _ _ (incl_app_r _ _ _ Hi))) as I3.
+        rewrite Forall_forall in H, H0.
+        rewrite explain_ECall. apply Fbind; [now apply IHe|]. intros a.
+        apply Fbind; [apply (fr_unionM S site_run sr_refl sr_trans); intros x Hx; now apply (H x Hx), I2|]. intros b.
+        apply Fbind; [apply (fr_unionM S site_run sr_refl sr_trans); intros x Hx; now apply (H0 x Hx), I3|].
+        intros; apply Fret.
+      - (* ETemplate *)
+        pose proof (snd_incl _ Hi) as I1. rewrite Forall_forall in H.
+        rewrite explain_ETemplate.
+        apply Fbind; [apply (fr_unionM S site_run sr_refl sr_trans); intros x Hx; now apply (H x Hx), I1|]. intros a.
+        apply Fbind; [|intros; apply Fret].
+        apply (fr_unionM S site_run sr_refl sr_trans); intros; apply (fr_ref_keys S site_run sr_refl sr_trans).
+      - (* EComp *)
+        pose proof (incl_app_l _ _ _ Hi) as I1. pose proof (list_incl _ (incl_app_r _ _ _ Hi)) as I2.
+        rewrite Forall_forall in H.
+        rewrite explain_EComp. apply Fbind; [now apply IHe|]. intros a.
+        destruct (effects_opt_off o); [apply Fret|].
+        apply Fbind; [|intros; apply Fret].
+        apply (fr_unionM S site_run sr_refl sr_trans); intros x Hx; now apply (H x Hx), I2.
+      - (* ELogged *)
+        rewrite explain_ELogged. now apply IHe.
+      - (* EPipe *)
+        pose proof (list_incl _ Hi) as I1. rewrite Forall_forall in H.
+        rewrite explain_EPipe. apply (fr_unionM S site_run sr_refl sr_trans). intros x Hx. now apply (H x Hx), I1.
+      - rewrite explain_EAllOptions. apply Fbind; [apply Femit|intros; apply Fret].
+    Qed.
+
+    (** ** Entry by entry, for every store in which a lookup after a store finds exactly the
+        stored entry or what was there before (true of the real store, below) *)
+    Section Entries.
+      Hypothesis find_after_store : forall c f v s c' f' w,
+        mem_find c' f' (mem_store c f v s) = Some w ->
+        (c' = c /\ f' = f /\ w = v) \/ mem_find c' f' s = Some w.
+
+      (** the entry [(cid, f, w)] was put there during a run that started in [s]: [cid] is the
+          cache of a site [(cid, e)]; from a store [sa] the run reached, the site's OWN expression
+          [e] was evaluated under a dictionary [o] and RETURNED [v]; [f] is the fingerprint Cached
+          computed next for [e] under that same [o]; and [w] is [v] (as every later reader sees
+          it: generators exhausted) *)
+      Definition site_success (s : S) (cid : N) (f : fp) (w : value) : Prop :=
+        exists e o sa v sb la sc lf,
+          In (cid, e) sl /\ site_run s sa /\
+          eval e o sa = (Ok v, sb, la) /\ fingerprint e o sb = (Ok f, sc, lf) /\ w = exhaust v.
+
+      Lemma site_success_from a b cid f w : site_run a b -> site_success b cid f w -> site_success a cid f w.
+      Proof.
+        intros Hab (e & o & sa & v & sb & la & sc & lf & Hin & Hr & Hv & Hf & Hw).
+        exists e, o, sa, v, sb, la, sc, lf. repeat split; auto. exact (sr_trans _ _ _ Hab Hr).
+      Qed.
+
+      Lemma site_run_entries s s' :
+        site_run s s' ->
+        forall c f w, mem_find c f s' = Some w -> mem_find c f s = Some w \/ site_success s c f w.
+      Proof.
+        induction 1 as [s|a b c0 Hab IHab Hbc IHbc|cid e o s1 v s2 l1 f s3 lf Hin Hv H12 IH12 Hf H23 IH23];
+          intros c f' w Hw.
+        - now left.
+        - destruct (IHbc _ _ _ Hw) as [Hb|Hp].
+          + now apply IHab.
+          + right. exact (site_success_from _ _ _ _ _ Hab Hp).
+        - destruct (find_after_store _ _ _ _ _ _ _ Hw) as [(-> & -> & ->)|Hold].
+          + right. exists e, o, s1, v, s2, l1, s3, lf. repeat split; auto. apply sr_refl.
+          + destruct (IH23 _ _ _ Hold) as [H2|Hp].
+            * now apply IH12.
+            * right. exact (site_success_from _ _ _ _ _ H12 Hp).
+      Qed.
+    End Entries.
+  End SiteStores.
+
+  (** THE STATEMENT.  Every run — of evaluate, validate, keys or explain; successful or failed — of any
+      expression [e_top], under any dictionary, from any store, goes through the store only along
+      a [site_run] of [e_top]'s own cache sites *)
+  Theorem every_run_is_a_site_run e_top o :
+    (forall s r s' l, eval e_top o s = (r, s', l) -> site_run (sites_of e_top) s s') /\
+    (forall s r s' l, validate e_top o s = (r, s', l) -> site_run (sites_of e_top) s s') /\
+    (forall s r s' l, keys e_top o s = (r, s', l) -> site_run (sites_of e_top) s s') /\
+    (forall s r s' l, explain e_top o s = (r, s', l) -> site_run (sites_of e_top) s s').
+  Proof.
+    destruct (runs_are_site_runs (sites_of e_top) e_top (incl_refl _) o) as (A & B & C).
+    repeat split; [exact A|exact B|exact C|].
+    exact (explain_runs_are_site_runs (sites_of e_top) e_top (incl_refl _) o).
+  Qed.
+
+  (** entry by entry: whatever is in the store after the run and was not there before was put
+      there by the success of ITS OWN cache site *)
+  Theorem new_entries_are_site_successes :
+    (forall c f v s c' f' w,
+       mem_find c' f' (mem_store c f v s) = Some w ->
+       (c' = c /\ f' = f /\ w = v) \/ mem_find c' f' s = Some w) ->
+    forall e_top o,
+    (forall s r s' l, eval e_top o s = (r, s', l) ->
+       forall cid f w, mem_find cid f s' = Some w ->
+         mem_find cid f s = Some w \/ site_success (sites_of e_top) s cid f w) /\
+    (forall s r s' l, validate e_top o s = (r, s', l) ->
+       forall cid f w, mem_find cid f s' = Some w ->
+         mem_find cid f s = Some w \/ site_success (sites_of e_top) s cid f w) /\
+    (forall s r s' l, keys e_top o s = (r, s', l) ->
+       forall cid f w, mem_find cid f s' = Some w ->
+         mem_find cid f s = Some w \/ site_success (sites_of e_top) s cid f w) /\
+    (forall s r s' l, explain e_top o s = (r, s', l) ->
+       forall cid f w, mem_find cid f s' = Some w ->
+         mem_find cid f s = Some w \/ site_success (sites_of e_top) s cid f w).
+  Proof.
+    intros law e_top o. destruct (every_run_is_a_site_run e_top o) as (A & B & C & D).
+    split; [|split; [|split]]; intros s r s' l H; apply (site_run_entries _ law); eauto.
+  Qed.
+
+  (** the failing node itself: a Cached node (cache on, miss) whose expression fails to evaluate
+      fails with THAT cause, and the whole run (fingerprint computation, then the failed
+      evaluation) went through the store along a [site_run] of the sites strictly INSIDE the
+      node's expression — the node's own site [(cid, e)] is not one of them: nothing was stored
+      for the node *)
+  Theorem failed_cached_expr_stores_only_inner_successes cid e o s f s1 l1 c ee s2 l2 :
+    cache_off o = false -> fingerprint e o s = (Ok f, s1, l1) -> mem_find cid f s1 = None ->
+    eval e o s1 = (Err c ee, s2, l2) ->
+    eval (ECached (CMem cid) e) o s =
+      (Err c true, s2, (dirty_evs cid e o ++ l1 ++ [EvCacheExists cid false]) ++ l2) /\
+    site_run (sites_of e) s s2 /\ ~ In (cid, e) (sites_of e).
+  Proof.
+    intros Hoff Hf Hm Hx. split; [|split].
+    - eapply strict_pos_propagates; [eapply sp_cached_miss; eauto|exact Hx].
+    - pose proof (runs_are_site_runs (sites_of e) e (incl_refl _)) as F3.
+      eapply sr_trans.
+      + exact (fr_fingerprint S mem_find mem_store cfg ucall rfuel site_ok _ (sr_refl _) (sr_trans _) e o F3 _ _ _ _ Hf).
+      + exact (proj1 (F3 o) _ _ _ _ Hx).
+    - apply own_site_not_inside.
+  Qed.
 
   (** the failing node itself: a Cached node whose expression fails to evaluate fails with that
       cause, and the run performed no store into its cache — [R] is any relation respected by
@@ -904,12 +1307,13 @@ Proof.
 Qed.
 
 Lemma fp_find_after_put f v l f' w :
-  fp_find f' (fp_put f v l) = Some w -> w = v \/ fp_find f' l = Some w.
+  fp_find f' (fp_put f v l) = Some w -> (f' = f /\ w = v) \/ fp_find f' l = Some w.
 Proof.
   induction l as [|[g u] l IH]; cbn [fp_put fp_find]; intros H.
-  - destruct (fp_eqb f' f); [left; congruence|discriminate].
+  - destruct (fp_eqb f' f) eqn:E'; [|discriminate]. apply c12_fp_eqb_eq in E'. left. split; congruence.
   - destruct (fp_eqb f g) eqn:E; cbn [fp_find] in H.
-    + apply c12_fp_eqb_eq in E. subst g. destruct (fp_eqb f' f); [left; congruence|now right].
+    + apply c12_fp_eqb_eq in E. subst g. destruct (fp_eqb f' f) eqn:E'; [|now right].
+      apply c12_fp_eqb_eq in E'. left. split; congruence.
     + destruct (fp_eqb f' g); [now right|now apply IH].
 Qed.
 Lemma st_get_after_put c l s c' :
@@ -925,11 +1329,13 @@ Proof.
         apply N.eqb_eq in E3. subst c'. rewrite N.eqb_refl in E. discriminate.
       * exact IH.
 Qed.
+(** the real store: a lookup after a store finds exactly the stored entry, or what was there *)
 Lemma real_find_after_store c f v s c' f' w :
-  mem_find c' f' (mem_store c f v s) = Some w -> w = v \/ mem_find c' f' s = Some w.
+  mem_find c' f' (mem_store c f v s) = Some w ->
+  (c' = c /\ f' = f /\ w = v) \/ mem_find c' f' s = Some w.
 Proof.
   unfold mem_find, mem_store. rewrite st_get_after_put. destruct (N.eqb c' c) eqn:E; [|now right].
-  apply N.eqb_eq in E. subst c'. apply fp_find_after_put.
+  apply N.eqb_eq in E. subst c'. intros H. destruct (fp_find_after_put _ _ _ _ _ H) as [[-> ->]|H']; auto.
 Qed.
 Lemma real_store_other_cache c f v s cid :
   negb (N.eqb c cid) = true -> st_get cid (mem_store c f v s) = st_get cid s.
@@ -946,14 +1352,59 @@ Section RealStore.
   Notation eval := (Eval.eval store mem_find mem_store cfg ucall rfuel site_ok).
   Notation fingerprint := (fingerprint store mem_find mem_store cfg ucall rfuel site_ok).
 
-  (** on the real store: after a FAILED evaluation every cache entry was there before or is a
-      value that a successful evaluation of a cached expression returned *)
-  Theorem real_failure_is_forgotten e o s c ee s' l :
-    eval e o s = (Err c ee, s', l) ->
-    forall cid f w, mem_find cid f s' = Some w ->
-      mem_find cid f s = Some w \/ produced store mem_find mem_store cfg ucall rfuel site_ok w.
+  Notation validate := (Eval.validate store mem_find mem_store cfg ucall rfuel site_ok).
+  Notation keys := (Eval.keys store mem_find mem_store cfg ucall rfuel site_ok).
+  Notation explain := (Eval.explain store mem_find mem_store cfg ucall rfuel site_ok).
+  Notation site_run := (site_run store mem_find mem_store cfg ucall rfuel site_ok).
+  Notation site_success := (site_success store mem_find mem_store cfg ucall rfuel site_ok).
+
+  (** on the real store: after ANY run (successful or failed) of any expression, every entry
+      that was not there before was put there by the success of its own cache site *)
+  Theorem real_new_entries_are_site_successes e_top o :
+    (forall s r s' l, eval e_top o s = (r, s', l) ->
+       forall cid f w, mem_find cid f s' = Some w ->
+         mem_find cid f s = Some w \/ site_success (sites_of e_top) s cid f w) /\
+    (forall s r s' l, validate e_top o s = (r, s', l) ->
+       forall cid f w, mem_find cid f s' = Some w ->
+         mem_find cid f s = Some w \/ site_success (sites_of e_top) s cid f w) /\
+    (forall s r s' l, keys e_top o s = (r, s', l) ->
+       forall cid f w, mem_find cid f s' = Some w ->
+         mem_find cid f s = Some w \/ site_success (sites_of e_top) s cid f w) /\
+    (forall s r s' l, explain e_top o s = (r, s', l) ->
+       forall cid f w, mem_find cid f s' = Some w ->
+         mem_find cid f s = Some w \/ site_success (sites_of e_top) s cid f w).
   Proof.
-    exact (failure_is_forgotten store mem_find mem_store cfg ucall rfuel site_ok real_find_after_store e o s c ee s' l).
+    exact (new_entries_are_site_successes store mem_find mem_store cfg ucall rfuel site_ok
+             real_find_after_store e_top o).
+  Qed.
+
+  (** evaluate alone, the definition of [site_success] spelled out *)
+  Corollary real_stored_entry_is_its_sites_success e_top o s r s' l :
+    eval e_top o s = (r, s', l) ->
+    forall cid f w, mem_find cid f s' = Some w ->
+      mem_find cid f s = Some w \/
+      exists e o' sa v sb la sc lf,
+        In (cid, e) (sites_of e_top) /\ site_run (sites_of e_top) s sa /\
+        eval e o' sa = (Ok v, sb, la) /\ fingerprint e o' sb = (Ok f, sc, lf) /\ w = exhaust v.
+  Proof. exact (proj1 (real_new_entries_are_site_successes e_top o) s r s' l). Qed.
+
+  (** on the real store: a Cached node (cache on, miss) whose expression fails: an entry found
+      afterwards at the node's own cache and fingerprint can only be the success of a site
+      strictly INSIDE the node's expression that shares the node's cache object — never something
+      stored for the node; without such a site there is no entry *)
+  Theorem real_failed_cached_expr_own_entry cid e o s f s1 l1 c ee s2 l2 :
+    cache_off cfg o = false -> fingerprint e o s = (Ok f, s1, l1) -> mem_find cid f s1 = None ->
+    eval e o s1 = (Err c ee, s2, l2) ->
+    (forall w, mem_find cid f s2 = Some w -> site_success (sites_of e) s1 cid f w) /\
+    ((forall x, ~ In (cid, x) (sites_of e)) -> mem_find cid f s2 = None).
+  Proof.
+    intros Hoff Hf Hm Hx.
+    assert (A : forall w, mem_find cid f s2 = Some w -> site_success (sites_of e) s1 cid f w).
+    { intros w Hw.
+      destruct (proj1 (real_new_entries_are_site_successes e o) _ _ _ _ Hx _ _ _ Hw) as [Hold|Hs]; [|exact Hs].
+      rewrite Hm in Hold. discriminate. }
+    split; [exact A|]. intros Hno. destruct (mem_find cid f s2) as [w|] eqn:Hw; [|reflexivity].
+    destruct (A w eq_refl) as (x & _ & _ & _ & _ & _ & _ & _ & Hin & _). destruct (Hno x Hin).
   Qed.
 
   (** on the real store: a Cached node (no other node of its expression uses its cache) whose
